@@ -92,7 +92,7 @@ class Ctx:
         """kind_info: dict with 'input' (str) and optional fields; returns the matching known finding or None"""
         import findings
         for f in self.known:
-            if f.get("status") != "known" or f.get("property") != self.pid:
+            if f.get("status") != "known" or (f.get("property") != self.pid and self.pid not in f.get("also", [])):
                 continue
             pred = findings.SIGNATURES.get(f.get("signature"))
             if pred and pred(kind_info):
